@@ -343,6 +343,36 @@ def stationary_policy_value(p, Fm):
     return P, float(rho)
 
 
+
+def lq_update_rate(p, P):
+    """spectral radius of the Jacobian (central differences over ALL n*n directions) at P of the unsymmetrised map
+    P -> R - S2'S1^-1 S2 + beta A'PA that LQ.update_values iterates.  In the antisymmetric directions the map is
+    E -> beta [A'E(A+BF) - F'B'E(A-BF)], which can expand although the symmetric part contracts; rounding asymmetry
+    of size eps is then multiplied by this factor at every update."""
+    A, B, Q, R, N = [npf(p[k_]) for k_ in ("A", "B", "Q", "R", "N")]
+    beta = float(p["beta"]); n = p["n"]
+
+    def f(X):
+        S2 = beta * B.T @ X @ A + N
+        return R - S2.T @ np.linalg.solve(Q + beta * B.T @ X @ B, S2) + beta * A.T @ X @ A
+    P = np.array(P, dtype=float)
+    h = 1e-5 * max(1.0, float(np.max(np.abs(P))))
+    J = np.zeros((n * n, n * n))
+    for a in range(n):
+        for b in range(n):
+            E = np.zeros((n, n)); E[a, b] = h
+            J[:, a * n + b] = ((f(P + E) - f(P - E)) / (2 * h)).ravel()
+    return float(np.max(np.abs(np.linalg.eigvals(J))))
+
+
+def amp_tol(p, P_before, base):
+    """forward-error tolerance of T unsymmetrised updates: base, or 100 eps times the product of the per-step
+    amplification factors max(1, rho(J_t)) when that is larger (conditioning-aware, derived from the recursion itself)"""
+    amp = 1.0
+    for P in P_before:
+        amp *= max(1.0, lq_update_rate(p, P))
+    return max(base, min(1e-3, 100 * 2.2e-16 * amp)), amp
+
 # ------------------------------------------------------------------ main
 def run(ctx):
     import quantecon as qe
@@ -388,9 +418,11 @@ def run(ctx):
         except Exception as e:
             ctx.fail("lq_update_raises", "update_values raises on a regular problem", inp, repr(e), None)
             continue
+        tolc, amp = amp_tol(p, [npf(p["Rf"])] + Ps[:-1], TOL)
+        ctx.count("finite:rounding_amplification=%s" % ("<=1e3" if amp <= 1e3 else "<=1e6" if amp <= 1e6 else ">1e6 (tolerance widened to 100 eps x amplification)"))
         ctx.case(("finite", T, str(p)), nontrivial=(T >= 2),
                  sample={"LQ": {key: (fl(p[key]) if isinstance(p[key], list) else str(p[key])) for key in ("A", "B", "Q", "R", "N", "beta")}, "T": T, "impl_P0": Ps[-1].tolist(), "impl_d0": ds[-1]})
-        rec_f.append(tup(tup(*coq_params_f(p)), natlit(T), flist2(fl(p["Rf"])), fmat3(Fi.tolist() for Fi in Fs), flist2(Ps[-1].tolist()), f1(ds[-1])))
+        rec_f.append(tup(tup(*coq_params_f(p)), natlit(T), flist2(fl(p["Rf"])), fmat3(Fi.tolist() for Fi in Fs), flist2(Ps[-1].tolist()), f1(ds[-1]), f1(tolc)))
         meta_rf.append(inp)
         small = (n <= 2 and k <= 2 and T <= 3) or (n == 1 and k == 1 and T <= 5)
         if small and len(rec_q) < (40 if thorough else 14):
@@ -421,7 +453,7 @@ def run(ctx):
             continue
         ws = [[script[a][s] for a in range(jj)] for s in range(1, Te + 1)]
         sim_f.append(tup(tup(*coq_params_f(p)), natlit(Te), flist2(fl(p["Rf"])), flist([float(v) for v in x0]), flist2(ws),
-                         flist2(xp.T.tolist()), flist2(up.T.tolist())))
+                         flist2(xp.T.tolist()), flist2(up.T.tolist()), f1(amp_tol(p, [npf(p["Rf"])] + [np.array(P_) for P_ in Ps[:max(Te - 1, 0)]], TOL)[0])))
         meta_sf.append(inp2)
         if small and Te <= 3 and len(sim_q) < (30 if thorough else 10):
             sim_q.append(tup(tup(*coq_params_q(p)), natlit(Te), qlist2(p["Rf"]), qlist(x0), qlist2([[frac(v) for v in w] for w in ws]),
@@ -450,8 +482,8 @@ def run(ctx):
             Jstar, ustar = qp_exact(p, T, x0)
             xv = np.array([float(v) for v in x0])
             val = float(xv @ Ps[-1] @ xv)
-            seen("qp_value", abs(val - float(Jstar)) / (1 + abs(float(Jstar))) / TOL)
-            if abs(val - float(Jstar)) > TOL * (1 + abs(float(Jstar))):
+            seen("qp_value", abs(val - float(Jstar)) / (1 + abs(float(Jstar))) / tolc)
+            if abs(val - float(Jstar)) > tolc * (1 + abs(float(Jstar))):
                 ctx.fail("lq_finite_value", "x0'P_0 x0 after T updates is not the minimum of the T-period quadratic programme", pinput(p, fn="LQ.update_values", T=T, x0=x0), val, float(Jstar))
             # controls generated by the returned policies without noise
             x = xv.copy(); dev = 0.0
@@ -459,47 +491,47 @@ def run(ctx):
                 u = -Fs[T - 1 - s] @ x
                 dev = max(dev, float(np.max(np.abs(u - np.array([float(v) for v in ustar[s]]))) / (1 + np.max(np.abs(u)))))
                 x = An @ x + Bn @ u
-            seen("qp_controls", dev / 1e-8)
-            if dev > 1e-8:
+            seen("qp_controls", dev / max(1e-8, 10 * tolc))
+            if dev > max(1e-8, 10 * tolc):
                 ctx.fail("lq_finite_policy", "controls of the returned policies differ from the minimiser of the T-period programme", pinput(p, fn="LQ.update_values", T=T, x0=x0), None, fl(ustar))
             ctx.count("finite:qp_checked")
             # cost of the returned policy by direct summation, without and with noise; perturbed rules are not better
             Ft = [Fs[T - 1 - s] for s in range(T)]
             cdet = policy_cost_finite(p, Ft, x0, with_noise=False)
-            seen("policy_cost_det", abs(float(cdet) - float(Jstar)) / (1 + abs(float(Jstar))) / TOL)
-            if abs(float(cdet) - float(Jstar)) > TOL * (1 + abs(float(Jstar))):
+            seen("policy_cost_det", abs(float(cdet) - float(Jstar)) / (1 + abs(float(Jstar))) / tolc)
+            if abs(float(cdet) - float(Jstar)) > tolc * (1 + abs(float(Jstar))):
                 ctx.fail("lq_finite_policy_cost", "cost actually generated by the returned policies is not the minimum", pinput(p, fn="LQ.update_values", T=T, x0=x0), float(cdet), float(Jstar))
             cnoise = policy_cost_finite(p, Ft, x0, with_noise=True)
-            seen("policy_cost_noise", abs(float(cnoise) - (val + ds[-1])) / (1 + abs(float(cnoise))) / TOL)
-            if abs(float(cnoise) - (val + ds[-1])) > TOL * (1 + abs(float(cnoise))):
+            seen("policy_cost_noise", abs(float(cnoise) - (val + ds[-1])) / (1 + abs(float(cnoise))) / tolc)
+            if abs(float(cnoise) - (val + ds[-1])) > tolc * (1 + abs(float(cnoise))):
                 ctx.fail("lq_finite_d", "x0'P_0 x0 + d_0 is not the expected cost generated by the returned policies under noise", pinput(p, fn="LQ.update_values", T=T, x0=x0), val + ds[-1], float(cnoise))
             for _ in range(2):
                 Fp = [f + np.array([[rng.randint(-2, 2) / 8.0 for _ in range(n)] for _ in range(k)]) for f in Ft]
                 cp = policy_cost_finite(p, Fp, x0, with_noise=False)
-                if float(cp) < float(Jstar) - TOL * (1 + abs(float(Jstar))):
+                if float(cp) < float(Jstar) - tolc * (1 + abs(float(Jstar))):
                     ctx.fail("lq_finite_better_rule", "a perturbed linear rule has lower cost than the returned value", pinput(p, fn="LQ.update_values", T=T, x0=x0), float(cp), float(Jstar))
 
     dtype_forms(ctx, qe, thorough, rec_f, meta_rf)
-    okrec = ("fun c => let '(p, T, Rf, Fs, P, d) := c in " + PLET +
+    okrec = ("fun c => let '(p, T, Rf, Fs, P, d%s) := c in " + PLET +
              "match lq_recursion n k j beta Q R A B C N T Rf %s [] with "
              "| Some (pols, P', d') => list_all2 (%s) pols Fs && %s P' P && %s d' d | None => false end")
-    bad = ctx.coq_check("lq_recursion_float", IMPORTS, "(%s) * nat * list (list float) * list (list (list float)) * list (list float) * float" % PTY_F,
-                        okrec % ("0%float", "Fss_close VTOL", "Fss_close VTOL", "Fclose VTOL"), rec_f, chunk=6, preamble=PRE)
+    bad = ctx.coq_check("lq_recursion_float", IMPORTS, "(%s) * nat * list (list float) * list (list (list float)) * list (list float) * float * float" % PTY_F,
+                        okrec % (", tol", "0%float", "Fss_close tol", "Fss_close tol", "Fclose tol"), rec_f, chunk=6, preamble=PRE)
     for i in bad:
         ctx.mismatch("C07.Model.lq_recursion/update_values (NumF) vs LQ.update_values iterated", meta_rf[i])
     bad = ctx.coq_check("lq_recursion_Q", IMPORTS, "(%s) * nat * list (list Q) * list (list (list Q)) * list (list Q) * Q" % PTY_Q,
-                        okrec % ("0%Q", "Qss_close QTOL", "Qss_close QTOL", "Qclose QTOL"), rec_q, chunk=2, preamble=PRE)
+                        okrec % ("", "0%Q", "Qss_close QTOL", "Qss_close QTOL", "Qclose QTOL"), rec_q, chunk=2, preamble=PRE)
     for i in bad:
         ctx.mismatch("C07.Model.lq_recursion/update_values (NumQ, exact) vs LQ.update_values iterated", meta_rq[i])
-    oksim = ("fun c => let '(p, T, Rf, x0, ws, X, U) := c in " + PLET +
+    oksim = ("fun c => let '(p, T, Rf, x0, ws, X, U%s) := c in " + PLET +
              "match compute_sequence_finite n k j beta Q R A B C N T Rf x0 ws with "
              "| Some (xs, us) => %s xs X && %s us U | None => false end")
-    bad = ctx.coq_check("compute_sequence_float", IMPORTS, "(%s) * nat * list (list float) * list float * list (list float) * list (list float) * list (list float)" % PTY_F,
-                        oksim % ("Fss_close VTOL", "Fss_close VTOL"), sim_f, chunk=6, preamble=PRE)
+    bad = ctx.coq_check("compute_sequence_float", IMPORTS, "(%s) * nat * list (list float) * list float * list (list float) * list (list float) * list (list float) * float" % PTY_F,
+                        oksim % (", tol", "Fss_close tol", "Fss_close tol"), sim_f, chunk=6, preamble=PRE)
     for i in bad:
         ctx.mismatch("C07.Model.compute_sequence_finite (NumF) vs LQ.compute_sequence (scripted shocks)", meta_sf[i])
     bad = ctx.coq_check("compute_sequence_Q", IMPORTS, "(%s) * nat * list (list Q) * list Q * list (list Q) * list (list Q) * list (list Q)" % PTY_Q,
-                        oksim % ("Qss_close QTOL", "Qss_close QTOL"), sim_q, chunk=2, preamble=PRE)
+                        oksim % ("", "Qss_close QTOL", "Qss_close QTOL"), sim_q, chunk=2, preamble=PRE)
     for i in bad:
         ctx.mismatch("C07.Model.compute_sequence_finite (NumQ, exact) vs LQ.compute_sequence (scripted shocks)", meta_sq[i])
 
@@ -755,7 +787,8 @@ def dtype_forms(ctx, qe, thorough, rec_f, meta_rf):
                     ctx.fail("lq_dtype_forms", "LQ with argument forms %s differs from the float64 call by %.3g" % (forms, dev), inp, None, None)
                 if "float32" not in forms.values() and not isinstance(beta_arg, np.float32):
                     rec_f.append(tup(tup(*coq_params_f(p)), natlit(T), flist2(fl(p["Rf"])), fmat3(Fi.tolist() for Fi in Fs_v),
-                                     flist2(np.array(got[3 * T - 2]).tolist()), f1(float(got[3 * T - 1]))))
+                                     flist2(np.array(got[3 * T - 2]).tolist()), f1(float(got[3 * T - 1])),
+                                     f1(amp_tol(p, [npf(p["Rf"])] + [np.array(got[3 * s_ + 1]) for s_ in range(T - 1)], TOL)[0])))
                     meta_rf.append(inp)
                 # ---- stationary values (both methods) when beta < 1
                 if float(beta_arg) < 1:
@@ -1225,11 +1258,22 @@ def harden_c07(ctx, qe, thorough):
                 # degenerate: C = 0 -> D(P) = P, the robust rule IS the LQ rule
                 if t % 2 == 0:
                     ctx.count("degenerate:RBLQ_C=0")
+                    inpz = dict(inp, C=zeros(n, j), note="C replaced by the zero matrix")
                     rz = qe.RBLQ(fa(p["Q"]), fa(p["R"]), fa(p["A"]), fa(p["B"]), np.zeros((n, j)), 0.9, float(theta))
-                    Fz, Kz, Pz = rz.robust_rule(); Fs, Ks, Ps = rz.robust_rule_simple()
+                    Fz, Kz, Pz = rz.robust_rule()
                     Pl, Fl, dl = qe.LQ(fa(p["Q"]), fa(p["R"]), fa(p["A"]), fa(p["B"]), beta=0.9).stationary_values()
-                    if _dev((Fz, Pz), (Fl, Pl)) > 1e-8 or _dev((Fs, Ps), (Fl, Pl)) > 1e-6 or np.max(np.abs(Kz)) > 1e-12:
-                        ctx.fail("rblq_degenerate", "C = 0: the robust rule must be the ordinary LQ rule and K = 0", inp, [np.array(Fz).tolist(), np.array(Kz).tolist()], np.array(Fl).tolist())
+                    if _dev((Fz, Pz), (Fl, Pl)) > 1e-8 or np.max(np.abs(Kz)) > 1e-12:
+                        ctx.fail("rblq_degenerate", "C = 0: robust_rule must return the ordinary LQ rule and K = 0", inpz, [np.array(Fz).tolist(), np.array(Kz).tolist()], np.array(Fl).tolist())
+                    # robust_rule_simple iterates the UNSYMMETRISED map P -> B(D(P)); where its Jacobian at the solution is not
+                    # a contraction (antisymmetric directions, unstable A) rounding asymmetry grows and the routine diverges or
+                    # raises on the pinned tree: compared only where the map contracts, otherwise counted
+                    rate = _simple_iteration_rate(fa(p["Q"]), fa(p["R"]), fa(p["A"]), fa(p["B"]), np.zeros((n, j)), 0.9, float(theta), np.array(Pl))
+                    if rate < 1 and rate ** 80 * (1 + float(np.max(np.abs(Pl)))) < 1e-8:     # 80 = the routine's own iteration cap
+                        Fs, Ks, Ps = rz.robust_rule_simple()
+                        if _dev((Fs, Ps), (Fl, Pl)) > 1e-6:
+                            ctx.fail("rblq_degenerate", "C = 0 and a contracting simple iteration: robust_rule_simple must return the ordinary LQ rule", inpz, np.array(Fs).tolist(), np.array(Fl).tolist())
+                    else:
+                        ctx.count("rblq:simple_iteration=not contracting at C=0 (comparison skipped)")
             except Exception as e:     # noqa
                 ctx.fail("rblq_raises", "RBLQ hardening battery raises", inp, repr(e), None)
 
